@@ -50,7 +50,19 @@ func registerEnvIntrinsics(I map[string]Intrinsic) {
 		}
 		t := g.vm.lookupType("net", "TCPAddr")
 		p := new(Value)
-		*p = zero(t)
+		st := zero(t).(Struct)
+		// the port is kept (decimal after the last colon); the host part is not resolved
+		port := uint64(0)
+		if i := strings.LastIndex(addr, ":"); i >= 0 {
+			for _, ch := range addr[i+1:] {
+				if ch < '0' || ch > '9' {
+					return Tuple{(*Value)(nil), g.mkError("vnet: bad port in " + addr)}
+				}
+				port = port*10 + uint64(ch-'0')
+			}
+		}
+		st[fieldIndex(t, "Port")] = mkInt(port)
+		*p = st
 		return Tuple{p, nilErr()}
 	}
 	I["os.Geteuid"] = func(g *G, a []Value, pos token.Pos) Value { return mkInt(1000) }
@@ -96,6 +108,18 @@ func registerEnvIntrinsics(I map[string]Intrinsic) {
 	vredirect("(*net.UnixConn).Close", "UnixConnClose")
 	vredirect("(*net.UnixConn).LocalAddr", "UnixConnLocalAddr")
 	vredirect("(*net.UnixConn).RemoteAddr", "UnixConnRemoteAddr")
+	vredirect("net.ListenTCP", "TCPListen")
+	vredirect("(*net.TCPListener).Accept", "TCPAccept")
+	vredirect("(*net.TCPListener).Close", "TCPListenerClose")
+	vredirect("(*net.TCPListener).Addr", "TCPListenerAddr")
+	vredirect("crypto/tls.NewListener", "TLSNewListener")
+	vredirect("crypto/tls.DialWithDialer", "TLSDialWithDialer")
+	vredirect("(*crypto/tls.Conn).Read", "TLSConnRead")
+	vredirect("(*crypto/tls.Conn).Write", "TLSConnWrite")
+	vredirect("(*crypto/tls.Conn).Close", "TLSConnClose")
+	vredirect("(*crypto/tls.Conn).LocalAddr", "TLSConnLocalAddr")
+	vredirect("(*crypto/tls.Conn).RemoteAddr", "TLSConnRemoteAddr")
+	vredirect("(*crypto/tls.Conn).ConnectionState", "TLSConnState")
 	I["(*net.conn).writeBuffers"] = func(g *G, a []Value, pos token.Pos) Value {
 		// net.Buffers.WriteTo on a *net.UnixConn handle: write the buffers one by one through vnet
 		q := a[0].(*Value)
@@ -198,6 +222,7 @@ func registerEnvIntrinsics(I map[string]Intrinsic) {
 	redirect("(*"+gw+".Dialer).Dial", "DialerDial")
 	redirect("(*"+gw+".Upgrader).Upgrade", "UpgraderUpgrade")
 	redirect("net/http.Error", "HTTPError")
+	redirect("(*net/http.Server).Serve", "ServerServe")
 	// routing inside net/http.ServeMux is outside every claim: registration is a no-op
 	I["(*net/http.ServeMux).Handle"] = func(g *G, a []Value, pos token.Pos) Value { return nil }
 	I["(*net/http.ServeMux).HandleFunc"] = func(g *G, a []Value, pos token.Pos) Value { return nil }
